@@ -14,6 +14,9 @@ def main (args : List String) : IO UInt32 := do
   | ["model"] =>
     modelLoop (← IO.getStdin) (← IO.getStdout) {}
     return 0
+  | ["model", "--concat-repaired"] =>
+    modelLoop (← IO.getStdin) (← IO.getStdout) { cfg := { concatRepaired := true } }
+    return 0
   | ["judge", opsFile, obsFile] =>
     let ops ← IO.FS.lines opsFile
     let obs ← IO.FS.lines obsFile
@@ -26,6 +29,7 @@ def main (args : List String) : IO UInt32 := do
     for r in j.rejects do
       out.putStrLn s!"REJECT {r.prop} line={r.line} {r.msg}"
     out.putStrLn ("STATS " ++ j.stats.json)
+    out.putStrLn ("PURE " ++ j.pm.json)
     return 0
   | ["gen", profile, seed, count, len] =>
     let lines := genProfile profile seed.toNat! count.toNat! len.toNat!
